@@ -89,6 +89,23 @@ fn typed_parse(input: &Tree) -> Result<Tree, String> {
     let dvs = ins.decision_variables.clone().parse(&()).map_err(|e| format!("dvs: {e}"))?;
     let cs = ins.constraints.clone().parse(&()).map_err(|e| format!("constraints: {e}"))?;
     let rs = ins.removed_constraints.clone().parse(&cs).map_err(|e| format!("removed: {e}"))?;
+    // the remaining typed components through their public Parse impls: sense, objective, hints
+    let sense = match ins.sense().parse(&()).map_err(|e| format!("sense: {e}"))? {
+        ommx::Sense::Minimize => 1,
+        ommx::Sense::Maximize => 2,
+    };
+    let objective = ins
+        .objective
+        .clone()
+        .ok_or("objective unset although try_from succeeded")?
+        .parse(&())
+        .map_err(|e| format!("objective: {e}"))?;
+    let hints = match ins.constraint_hints.clone() {
+        Some(h) => h
+            .parse(&(dvs.clone(), cs.clone()))
+            .map_err(|e| format!("hints: {e}"))?,
+        None => Default::default(),
+    };
     let mut dv_list: Vec<_> = dvs.values().collect();
     dv_list.sort_by_key(|d| *d.id);
     let mut c_list: Vec<_> = cs.values().collect();
@@ -121,6 +138,20 @@ fn typed_parse(input: &Tree) -> Result<Tree, String> {
                 list(params, |(k, v)| L(vec![a(k), a(v)])),
             ])
         }),
+        i(sense),
+        e_typed_fn(&objective),
+        L(vec![
+            list(hints.one_hot_constraints.iter(), |o| {
+                L(vec![u(*o.id), list(o.variables.iter(), |v| u(**v))])
+            }),
+            list(hints.sos1_constraints.iter(), |s| {
+                L(vec![
+                    u(*s.binary_constraint_id),
+                    list(s.big_m_constraint_ids.iter(), |c| u(**c)),
+                    list(s.variables.iter(), |v| u(**v)),
+                ])
+            }),
+        ]),
     ]);
     Ok(L(vec![res, comps]))
 }
